@@ -86,48 +86,102 @@ Proof.
   rewrite andb_true_iff, !String.eqb_eq. split; [intros [-> ->]; reflexivity|intros E; inversion E; auto].
 Qed.
 
-(** If the check succeeds on what the translator extracted, then: no two
-    conflicting accesses are unordered; every access lies in a classified
-    function; the classification is closed under the calls of the package; the
-    synchronisation skeleton, the tracked cells and the pointer aliases are the
-    ones the model was written for. *)
-Theorem protocol_sound : forall sites calls skeleton tracked aliases messages,
-  full_check sites calls skeleton tracked aliases messages = true ->
-  (forall a b, In a (expand sites) -> In b (expand sites) -> conflict a b ->
+Lemma is_nil_false {A} (l : list A) : is_nil l = false -> l <> [].
+Proof. destruct l; [discriminate|intros _; discriminate]. Qed.
+
+Lemma mem_str_in x l : mem_str x l = true -> In x l.
+Proof.
+  unfold mem_str. intros H. apply existsb_exists in H. destruct H as (y & Hy & E).
+  apply String.eqb_eq in E. subst. exact Hy.
+Qed.
+
+Lemma callers_in calls f c : In (c, f) calls -> In c (callers calls f).
+Proof.
+  intros H. unfold callers. apply in_map_iff. exists (c, f). split; [reflexivity|].
+  apply filter_In. split; [exact H|]. cbn. apply String.eqb_refl.
+Qed.
+
+(** If the check succeeds on what the translator extracted, then, with [cl]
+    the classification (the hand-written map, and for unlisted functions the
+    union of their callers' components): no two conflicting accesses are
+    unordered; every write to a message field lies in a function only producers
+    run; every access lies in a classified function; every unlisted function
+    that holds accesses (and every unlisted caller above it) does not escape,
+    has callers, and each caller is classified within its classification; the
+    hand-written map is closed under the package's static calls; the skeleton,
+    the cells, the aliases and the message types are the expected ones. *)
+Theorem protocol_sound : forall sites calls skeleton tracked aliases messages esc,
+  full_check sites calls skeleton tracked aliases messages esc = true ->
+  let cl := cls calls esc in
+  (forall a b, In a (expand cl sites) -> In b (expand cl sites) -> conflict a b ->
      hb (e_comp a) (e_comp b) \/ hb (e_comp b) (e_comp a) \/ same_component a b)
   /\ (forall s, In s sites -> s_sync s = Msg ->
-        comps_of (s_func s) <> [] /\ incl (comps_of (s_func s)) (producers_of (s_cell s)))
-  /\ (forall s, In s sites -> comps_of (s_func s) <> [])
+        cl (s_func s) <> [] /\ incl (cl (s_func s)) (producers_of (s_cell s)))
+  /\ (forall s, In s sites -> cl (s_func s) <> [])
+  /\ (forall s, In s sites -> comps_of (s_func s) = [] -> In (s_func s) (support sites calls))
+  /\ (forall f, In f (support sites calls) ->
+        ~ In f esc /\ callers calls f <> [] /\
+        forall c, In (c, f) calls ->
+          cl c <> [] /\ incl (cl c) (cl f) /\ (comps_of c <> [] \/ In c (support sites calls)))
   /\ (forall f g, In (f, g) calls -> comps_of g <> [] -> ~ In Any (comps_of g) ->
-        comps_of f <> [] /\ incl (comps_of f) (comps_of g))
+        cl f <> [] /\ incl (cl f) (comps_of g))
   /\ skeleton = expected_skeleton /\ tracked = cells /\ aliases = expected_aliases
   /\ messages = map fst producers.
 Proof.
-  intros sites calls skeleton tracked aliases messages H. unfold full_check in H.
+  intros sites calls skeleton tracked aliases messages esc H cl. unfold full_check in H. fold cl in H.
   apply andb_true_iff in H; destruct H as [H Hal].
   apply andb_true_iff in H; destruct H as [H Htr].
   apply andb_true_iff in H; destruct H as [H Hsk].
   apply andb_true_iff in H; destruct H as [H Hed].
+  apply andb_true_iff in H; destruct H as [H Hinh].
   apply andb_true_iff in H; destruct H as [H Hmp].
   apply andb_true_iff in H; destruct H as [H Hms].
   apply andb_true_iff in H; destruct H as [Hpairs Hmsg].
-  split; [|split; [|split; [|split; [|split; [|split; [|split]]]]]].
+  split; [|split; [|split; [|split; [|split; [|split; [|split; [|split; [|split]]]]]]]].
   - intros a b Ha Hb Hc. rewrite forallb_forall in Hpairs. specialize (Hpairs a Ha).
     rewrite forallb_forall in Hpairs. apply pair_ok_sound; [apply Hpairs; exact Hb|exact Hc].
   - intros s Hs Hm. rewrite forallb_forall in Hmsg. specialize (Hmsg s Hs). unfold msg_ok in Hmsg.
     rewrite Hm in Hmsg. cbn [sync_eqb negb orb] in Hmsg. apply andb_true_iff in Hmsg. destruct Hmsg as [M1 M2].
-    split; [|apply subset_incl; exact M2]. unfold mapped in M1. destruct (comps_of (s_func s)); discriminate.
-  - intros s Hs. rewrite forallb_forall in Hmp. specialize (Hmp s Hs). unfold mapped in Hmp.
-    destruct (comps_of (s_func s)); discriminate.
+    split; [apply is_nil_false; apply negb_true_iff; exact M1|apply subset_incl; exact M2].
+  - intros s Hs. rewrite forallb_forall in Hmp. specialize (Hmp s Hs).
+    apply is_nil_false. apply negb_true_iff. exact Hmp.
+  - intros s Hs Hn. unfold support.
+    assert (Hin : In (s_func s) (filter (fun f => is_nil (comps_of f)) (map s_func sites))).
+    { apply filter_In. split; [apply in_map; exact Hs|rewrite Hn; reflexivity]. }
+    revert Hin. generalize (filter (fun f => is_nil (comps_of f)) (map s_func sites)). generalize 8%nat.
+    intros n; destruct n as [|n]; intros l Hin; cbn [up]; [exact Hin|].
+    destruct (filter (fun c => is_nil (comps_of c)) (flat_map (callers calls) l)); [exact Hin|].
+    apply in_or_app. left. exact Hin.
+  - intros f Hf. rewrite forallb_forall in Hinh. specialize (Hinh f Hf). unfold inherit_ok in Hinh.
+    apply andb_true_iff in Hinh; destruct Hinh as [Hinh I4].
+    apply andb_true_iff in Hinh; destruct Hinh as [Hinh I3].
+    apply andb_true_iff in Hinh; destruct Hinh as [I1 I2].
+    split; [|split].
+    + intros Hin. apply negb_true_iff in I2. assert (mem_str f esc = true).
+      { unfold mem_str. apply existsb_exists. exists f. split; [exact Hin|apply String.eqb_refl]. }
+      congruence.
+    + apply is_nil_false. apply negb_true_iff. exact I3.
+    + intros c Hc. rewrite forallb_forall in I4. specialize (I4 c (callers_in calls f c Hc)).
+      apply andb_true_iff in I4; destruct I4 as [I4 J3].
+      apply andb_true_iff in I4; destruct I4 as [J1 J2].
+      split; [apply is_nil_false; apply negb_true_iff; exact J1|].
+      split; [apply subset_incl; exact J2|].
+      apply orb_true_iff in J3. destruct J3 as [J3|J3].
+      * left. unfold mapped in J3. destruct (comps_of c); [discriminate|discriminate].
+      * right. apply mem_str_in. exact J3.
   - intros f g Hin Hg Hany. rewrite forallb_forall in Hed. specialize (Hed (f, g) Hin). unfold edge_ok in Hed.
     unfold mapped in Hed. destruct (comps_of g) eqn:Eg; [contradiction|].
     cbn [negb orb] in Hed. destruct (has_any (c :: l)) eqn:Ea.
     + exfalso. apply Hany. unfold has_any in Ea. apply existsb_exists in Ea. destruct Ea as (x & Hx & E).
       apply comp_eqb_eq in E. subst. exact Hx.
     + cbn [orb] in Hed. apply andb_true_iff in Hed. destruct Hed as [M1 M2].
-      split; [destruct (comps_of f); discriminate|apply subset_incl; exact M2].
+      split; [apply is_nil_false; apply negb_true_iff; exact M1|apply subset_incl; exact M2].
   - apply (list_eqb_eq String.eqb String.eqb_eq). assumption.
   - apply (list_eqb_eq String.eqb String.eqb_eq). assumption.
   - apply (list_eqb_eq str_pair_eqb str_pair_eqb_eq). assumption.
   - apply (list_eqb_eq String.eqb String.eqb_eq). assumption.
 Qed.
+
+(** the hand-written map wins: a listed function is classified as listed *)
+Lemma cls_listed calls esc f : comps_of f <> [] -> cls calls esc f = comps_of f.
+Proof. unfold cls. cbn [infer]. destruct (comps_of f); [intros H; contradiction|reflexivity]. Qed.
